@@ -2,10 +2,10 @@ from checks.generic import standard
 
 def run(ctx):
     return standard(ctx,
-        props=[("Props.C13", ["c13_decision", "c13_no_lookalike", "c13_own_hosts_match", "c13_no_config", "c13_cors", "c13_old_rule_refuted",
+        props=[("Props.C13", ["c13_decision", "c13_patterns", "c13_unusable_pattern_refuses", "c13_skip_unusable_refuted", "c13_no_lookalike", "c13_own_hosts_match", "c13_no_config", "c13_cors", "c13_old_rule_refuted",
                               "c13_split_complete", "c13_split_sound", "c13_plain_grammar"])],
         harness=("TestVerif_C13", ["kmd/common.go", "kmd/creds.go", "kmd/c13.go"]),
-        cases=("CasesC13.v", [("c13_mismatches", "CanRedirectToURL / CorsOriginAllowed / generic CORS = model on the components url.Parse delivers, 8 client configurations"),
+        cases=("CasesC13.v", [("c13_mismatches", "CanRedirectToURL / CorsOriginAllowed / generic CORS = model on the components url.Parse delivers, 12 client configurations, pattern verdicts per configured pattern (match / no match / refused by the regexp library)"),
                               ("c13_split_mismatches", "net/url.Parse = Gallina splitter on members and near-misses of the conservative https grammar", "CasesC13split.idx")], "CasesC13.idx"),
         trusted=["net/url.Parse and regexp run in front of the decision model (scheme, RawQuery, Path, Hostname and the pattern verdict are its inputs); on the conservative grammar of Model/UrlSplit.v net/url.Parse itself is compared with the Gallina splitter",
                  "harness WHATWG host extractor (special-scheme rules: backslash = slash, tab/CR/LF stripped, last @, percent-decoding, lower-casing) stands in for browsers"],
